@@ -22,7 +22,7 @@ RULE = ("shapes: vectors 1-4, matrices r x c with r,c in 1..3 (13 shapes). eleme
         "different entries (or is a scalar aggregate of >=2 different entries).")
 ASSUMPTIONS = ["arr_size is judged on vectors only (for a matrix the library documents 'number of rows', numpy .size is rows*cols: ambiguous)",
                "an exception anywhere between construction and evaluation is 'rejected', allowed by the property for supported and unsupported forms alike"]
-REQUIRED = {"second_use_entries": 20, "named_stock_entries": 15, "arrayed_stock_entries_over_time": 30, "accepted_equal": 300, "rejected_mismatch": 100, "entries_compared": 2000}
+REQUIRED = {"late_initial_values": 5, "second_use_entries": 20, "named_stock_entries": 15, "arrayed_stock_entries_over_time": 30, "accepted_equal": 300, "rejected_mismatch": 100, "entries_compared": 2000}
 BUDGET_S = {"quick": 100, "thorough": 1200}
 
 VEC = [(n,) for n in (1, 2, 3, 4)]
@@ -120,6 +120,8 @@ def gen_cases(tier, seed):
         # arrayed STOCKS whose equation is an arrayed expression of time-varying members (two Euler steps)
         for tmpl in STOCK_TV:
             cases.append(dict(form="stock_tv", tmpl=tmpl, draw=d))
+            # ... and the initial value of the LAST member is set after the equation was assigned
+            cases.append(dict(form="stock_tv", tmpl=tmpl, draw=d, late_init=True))
         # named arrayed stocks fed by named expressions / flows whose names come in another order, or do not match
         for tmpl in NAMED_STOCK:
             cases.append(dict(form="named_stock", tmpl=tmpl, draw=d))
@@ -249,6 +251,14 @@ def run_stock_tv(case):
         else:
             res.setup_matrix([2, 2], [[1.0, 1.0], [1.0, 1.0]])
         res.equation = eval(tmpl, {}, E)
+        if case.get("late_init"):
+            if expected.ndim == 1:
+                res[1].initial_value = 3.5
+                expected[1] += 2.5
+            else:
+                res[1][1].initial_value = 3.5
+                expected[1][1] += 2.5
+            counters["late_initial_values"] = 1
         got = read(res, expected.shape, 2.0)
     except ShapeMismatch as e:
         return dict(verdict="violated", counters=counters, mech="shape", witness=dict(case=case, error=str(e)))
